@@ -64,6 +64,56 @@ def build_source(name, valid, flux, error, x=0.0, y=0.0):
     return s
 
 
+def integerise(valid, flux, error, both=False):
+    """whole-number photometry for a flag vector (legal input: the setters take any 1-d sequence): fluxes become integers >= 1
+    (flag 4: any integer), and with both=True the errors too (>= 1; confidences of limits become 1)"""
+    valid = np.asarray(valid)
+    f = np.array(flux, float)
+    e = np.array(error, float)
+    lin = (valid == 1) | (valid == 2) | (valid == 3) | ((valid == 9) & (f > 0))      # (a positive plot-only value stays positive)
+    f[lin] = np.clip(np.round(f[lin]), 1.0, 1e9)          # (1e9: representable in every integer container used, int32 included)
+    f[~lin] = np.clip(np.round(f[~lin]), -1e9, 1e9)
+    if both:
+        fit = (valid == 1) | (valid == 4)
+        e[fit] = np.clip(np.round(e[fit]), 1.0, 1e9)
+        e[(valid == 2) | (valid == 3)] = 1.0
+        e[(valid == 0) | (valid == 9)] = np.clip(np.round(e[(valid == 0) | (valid == 9)]), -1e9, 1e9)
+    return f, e
+
+
+def as_container(kind, arr):
+    """the same numbers in another legal container (None/'f8': float64 array)"""
+    a = np.asarray(arr, float)
+    if kind in (None, 'f8'):
+        return np.array(a, dtype=float)
+    if kind == 'i8':
+        return np.array(np.round(a), dtype=np.int64)
+    if kind == 'i4':
+        return np.array(np.round(a), dtype=np.int32)
+    if kind == 'ilist':
+        return [int(round(float(x))) for x in a]
+    if kind == 'ituple':
+        return tuple(int(round(float(x))) for x in a)
+    if kind == 'list':
+        return [float(x) for x in a]
+    if kind == 'tuple':
+        return tuple(float(x) for x in a)
+    raise ValueError(kind)
+
+
+def build_source_as(name, valid, flux, error, fkind=None, ekind=None, vkind=None, x=0.0, y=0.0):
+    """Source whose arrays are given in other legal containers / dtypes (integer arrays, lists, tuples)"""
+    from sedfitter.source import Source
+    s = Source()
+    s.name = name
+    s.x = float(x)
+    s.y = float(y)
+    s.valid = list(int(v) for v in valid) if vkind == 'list' else np.array(valid, dtype=int)
+    s.flux = as_container(fkind, flux)
+    s.error = as_container(ekind, error)
+    return s
+
+
 def source_line(name, valid, flux, error, x=0.0, y=0.0):
     cols = [name, repr(float(x)), repr(float(y))] + ['%d' % v for v in valid]
     for f, e in zip(flux, error):
